@@ -2268,7 +2268,7 @@ class NITFReader(BaseReader):
             raise ValueError(
                 'Requires IMODE = `R`, got `{}` at image segment index {}'.format(
                     image_header.IMODE, image_segment_index))
-        if image_header.IMODE not in ['NC', 'NM']:
+        if image_header.IC not in ['NC', 'NM']:
             raise ValueError(
                 'IMODE is `R` and the image is compressed at image segment index {}'.format(
                     image_segment_index))
